@@ -256,8 +256,25 @@ func vectorMixture(p ThreadPool, size int, seed int64) result {
 	return result{Params: params(d), Liks: liks}
 }
 
+// HMM whose emissions are scalar mixtures: the per-emission jobs of Emissions call the
+// mixture estimator's Estimate, which submits jobs to the same pool and waits for them
+// from a worker thread (nested job groups, spec/PoolNested.tla); differential only
+func nestedMixtures() []ScalarEstimator {
+	mk := func(a, b float64) ScalarEstimator {
+		e1, _ := scalarEstimator.NewNormalEstimator(a, 1.5, 1e-2)
+		e2, _ := scalarEstimator.NewNormalEstimator(b, 1.5, 1e-2)
+		m, err := scalarEstimator.NewMixtureEstimator([]float64{1, 1}, []ScalarEstimator{e1, e2}, 1e-8, -1)
+		if err != nil {
+			panic(err)
+		}
+		return m
+	}
+	return []ScalarEstimator{mk(-3, -1), mk(1, 3)}
+}
+
 func scenarios() []scenario {
 	return []scenario{
+		{"vhmm-nested-mixture", "", hmmScenario(nestedMixtures, normalData, nil, nil)},
 		{"smix-normal", "em", scalarMixture(normals, normalData)},
 		{"smix-poisson", "em", scalarMixture(poissons, counts)},
 		{"vhmm-categorical", "bw", hmmScenario(categoricals, binary, nil, nil)},
@@ -270,7 +287,9 @@ func scenarios() []scenario {
 		{"exponential-weighted", "", plainScalar(func() (scalarEst, error) { return scalarEstimator.NewExponentialEstimator(1, 100) }, positive, true)},
 		{"poisson", "", plainScalar(func() (scalarEst, error) { return scalarEstimator.NewPoissonEstimator(1) }, counts, true)},
 		{"geometric", "", plainScalar(func() (scalarEst, error) { return scalarEstimator.NewGeometricEstimator(0.5) }, counts, true)},
-		{"categorical", "", plainScalar(func() (scalarEst, error) { return scalarEstimator.NewCategoricalEstimator([]float64{0.2, 0.2, 0.2, 0.1, 0.1, 0.1, 0.1}) }, counts, true)},
+		{"categorical", "", plainScalar(func() (scalarEst, error) {
+			return scalarEstimator.NewCategoricalEstimator([]float64{0.2, 0.2, 0.2, 0.1, 0.1, 0.1, 0.1})
+		}, counts, true)},
 		{"vnormal", "", vectorNormal},
 	}
 }
